@@ -141,6 +141,8 @@ pub struct Profile {
     pub lockstep_pct: u32,
     /// percent of map inserts that write the key's current plain value again (C05)
     pub same_pct: u32,
+    /// number of root-map keys quotations are stored under (fewer keys = quotations are overwritten, i.e. deleted, more often)
+    pub quote_keys: u8,
 }
 
 pub const C_TINS: usize = 0;
@@ -195,6 +197,7 @@ impl Profile {
             cleanup_pct: 100,
             lockstep_pct: 0,
             same_pct: 0,
+            quote_keys: 4,
             ascii_pct: 0,
         }
     }
@@ -300,7 +303,7 @@ pub fn gen_call(rng: &mut Rng, p: &Profile) -> Call {
             start: pos,
             len: rng.u8(1..5),
             form: rng.u8(0..4),
-            key: rng.u8(0..4),
+            key: rng.u8(0..p.quote_keys),
         },
         _ => Call::Link { src: ty, key: rng.u8(0..p.keys) },
     }
